@@ -72,7 +72,7 @@ def main():
             out["demo_tail"] = tail[-600:]
         for prop in a.props.split(","):
             t0 = time.time()
-            env = dict(os.environ, VV_REPO=wt, VERIF_SEED=a.seed)
+            env = dict(os.environ, VV_REPO=wt, VERIF_SEED=a.seed, VV_EVIDENCE_DIR=os.path.join(base, "evidence"))  # never overwrite /verif/evidence from a mutated tree
             p = sh([os.path.join(HERE, "check"), prop, a.tier], env=env, cwd=HERE)
             keys = re.findall(r"^VIOLATION property=\S+ replay=\S+\s+key=(\S+) occurrences=(\d+)", p.stdout, flags=re.M)
             inc = re.findall(r"INCONCLUSIVE property=\S+ why=(.*)", p.stdout)
